@@ -164,6 +164,10 @@ def mon_C07(spec, st, t, seen):
     rs, rt = V.roundtrip(t)
     if rs == 'ok' and rt.cache_key != key and not spec_reserved(spec):
         return ('unstable-reconstruct', 'key changes after reconstruction from cache metadata')
+    # a type whose post_init canonicalises its parameter: the key is that of the task as it ends up
+    tr = U.VRewrite(x=V.build(spec))
+    if tr.cache_key != U.VRewrite(x=tr.x).cache_key:
+        return ('unstable-reconstruct', 'a task whose post_init rewrites its parameter has another cache_key than the equal task built from the rewritten value')
     try:
         storage().exists(key)
     except BaseException as e:  # noqa
@@ -176,7 +180,12 @@ def mon_C07(spec, st, t, seen):
     seen[key] = (ident, spec)
     # same parameter under another type / a same-named type in another module / a prefix-named type
     import lv_universe2 as U2
-    for other in (U.V(x=t.x), U2.V2(x=t.x), U.VV(x=t.x)):
+    import lv_pkg.sub.defs as PD
+    import lv_pkg.other as PO
+    others = [U.V(x=t.x), U2.V2(x=t.x), U.VV(x=t.x), PD.V2(x=t.x), PO.V2(x=t.x), U.NestA_V2(x=t.x), U.NestB_V2(x=t.x)]
+    if len({o.cache_key for o in others}) != len(others):
+        return ('type-collision', 'two different task types (same class name in different modules / enclosing classes) share a cache key for equal parameters')
+    for other in others:
         if other.cache_key == key:
             return ('type-collision', f'{type(other).__module__}.{type(other).__qualname__} shares the key of lv_universe.V2')
     return None
@@ -304,7 +313,9 @@ def stage_store_roundtrip(report, tier, rng, dist, prop='C09'):
     import lv_universe2 as U2
     from labtech.lab import Lab
     n = (120 if tier == 'quick' else 1500) if prop == 'C09' else (80 if tier == 'quick' else 600)
-    types = [U.V2, U.V, U.VV, U2.V2, U.VJ, U.V1, U.VPost]
+    import lv_pkg.sub.defs as PD
+    import lv_pkg.other as PO
+    types = [U.V2, U.V, U.VV, U2.V2, U.VJ, U.V1, U.VPost, PD.V2, PO.V2, U.VRewrite]
     d = tempfile.mkdtemp(dir=subdir('vals'))
     done = 0
     try:
@@ -313,7 +324,7 @@ def stage_store_roundtrip(report, tier, rng, dist, prop='C09'):
             lab = Lab(storage=storage, runner_backend='serial', notebook=False)
             tasks = []
             for _ in range(40):
-                spec = V.gen_spec(rng, bad=0.0, reserved=0.0, nan=False)
+                spec = V.gen_spec(rng, bad=0.0, reserved=0.0, nan=False, mixed=True)
                 try:
                     raw = V.build(spec)
                     t = rng.choice(types)(x=raw)
@@ -370,6 +381,21 @@ def stage_store_roundtrip(report, tier, rng, dist, prop='C09'):
                     continue
                 if any(t.result_meta is None or t.result_meta.start is None for t in got):
                     report.violation(f'{prop}:no-stored-meta', 'a task returned by cached_tasks carries no stored result_meta', dict(type=ty.__qualname__, level='store'))
+                else:
+                    # ... and it is the one recorded when the task ran (start and duration, to the microsecond)
+                    recorded = {t.cache_key: t.result_meta for t, _ in want if t.result_meta is not None}
+                    for g in got:
+                        r = recorded.get(g.cache_key)
+                        if r is not None and (g.result_meta.start != r.start or abs((g.result_meta.duration - r.duration).total_seconds()) > 2e-6):
+                            report.violation(f'{prop}:stored-meta-differs', f'cached_tasks returned result_meta {g.result_meta} for a task whose run recorded {r}', dict(type=ty.__qualname__, level='store'))
+                            break
+                # listing a type twice, or together with other types, still returns each cached task exactly once
+                try:
+                    again = [g for g in lab.cached_tasks([ty, ty]) if not any(g == a for a in ambiguous)] if len(want) else []
+                    if len(again) != len(got):
+                        report.violation(f'{prop}:listed-twice-or-foreign', f'cached_tasks([T, T]) returned {len(again)} tasks, cached_tasks([T]) {len(got)}', dict(type=ty.__qualname__, level='store'))
+                except BaseException as e:   # noqa
+                    report.violation(f'{prop}:cached-tasks-raised', f'cached_tasks([T, T]) raised {e!r}', dict(type=ty.__qualname__, level='store'))
                 before = U.VRUN_COUNT[0]
                 lab.run_tasks(got, disable_progress=True, disable_top=True)
                 if U.VRUN_COUNT[0] != before:
@@ -401,7 +427,7 @@ def run(prop, report, tier, seed, replay=None):
         for i in range(n):
             bad = 0.1 if (prop == 'C15' and i % 3 == 0) else 0.0
             reserved = 0.15 if (prop in ('C07', 'C09') and i % 10 == 0) else 0.0
-            specs.append(V.gen_spec(rng, bad=bad, reserved=reserved))
+            specs.append(V.gen_spec(rng, bad=bad, reserved=reserved, mixed=(prop in ('C07', 'C09'))))
     terms, kept = [], []
     dist = Counter()
     seen_keys = {}
@@ -412,12 +438,15 @@ def run(prop, report, tier, seed, replay=None):
         dist[f'depth={depth(spec)}'] += 1
         if st == 'unbuildable':
             continue
-        if prop == 'C15':
-            v = mon_C15(spec, st, t)
-        elif prop == 'C07':
-            v = mon_C07(spec, st, t, seen_keys)
-        else:
-            v = mon_C09(spec, st, t)
+        try:
+            if prop == 'C15':
+                v = mon_C15(spec, st, t)
+            elif prop == 'C07':
+                v = mon_C07(spec, st, t, seen_keys)
+            else:
+                v = mon_C09(spec, st, t)
+        except BaseException as e:   # noqa  (building an equal task, pickling, ... raised where the first construction had not)
+            v = ('operation-raised', f'{type(e).__name__}: {e}')
         if v is not None:
             report.violation(f'{prop}:{v[0]}', v[1], dict(spec=spec))
         # fresh objects for emission (the monitor attached state to t)
@@ -438,6 +467,13 @@ def run(prop, report, tier, seed, replay=None):
         # "... or reconstruction from cache metadata": through the real metadata file, not only the serializer
         stage_store_roundtrip(report, tier, rng, dist, prop='C07')
     if prop == 'C07' and replay is None:
+        # same-named classes nested in different outer classes (enum members and tasks as parameter values)
+        pairs = [(U.V2(x=U.NestA.Kind.FAST), U.V2(x=U.NestB.Kind.FAST)), (U.V2(x=(U.NestA.Kind.FAST,)), U.V2(x=(U.NestB.Kind.FAST,))),
+                 (U.V2(x=U.NestA_V2(x=1)), U.V2(x=U.NestB_V2(x=1))), (U.V2(x={'k': U.NestA_V2(x=1)}), U.V2(x={'k': U.NestB_V2(x=1)}))]
+        for a, b in pairs:
+            if a.cache_key == b.cache_key:
+                report.violation('C07:type-collision', f'{a!r} and {b!r} (same class name, different enclosing class) share the cache key {a.cache_key}', dict(level='nested-names'))
+                break
         okspecs = [s for s in kept if V.construct(s)[0] == 'ok'][:400 if tier == 'quick' else 4000]
         base = [V.construct(s)[1].cache_key for s in okspecs]
         for hs in ((1, 4242) if tier == 'quick' else (1, 7, 4242)):
